@@ -726,11 +726,14 @@ def _in_child(fn):
     return val
 
 
-def _run(acc, env, buf, size, family, listing=None, hist=None):
+def _run(acc, env, buf, size, family, listing=None, hist=None, before=None):
     outcome, viols = judge(env, buf, size)
+    if before is not None and not hist:            # pre-history pass of a history shard: remember what fails anyway
+        before.update((buf, k) for k, _ in viols)
+        return
     if hist:
         outcome = outcome + (hist,)
-        viols = [(k + ":" + hist, "[%s] %s" % (HISTORIES[hist], m)) for k, m in viols]
+        viols = [(k + ":" + hist, "[%s] %s" % (HISTORIES[hist], m)) for k, m in viols if (buf, k) not in (before or ())]
     acc.n += 1
     acc.count(family)
     if buf:
@@ -784,9 +787,12 @@ def _run_shard(ctx, shard):
     acc._oc = set()
     kind = shard[0]
     if kind == "hist":
+        before = set()
+        for u in range(shard[2], shard[3]):
+            _run(acc, env, struct.pack("<H", u), 1, None, before=before)
         seen = run_history(env, shard[1])
         for u in range(shard[2], shard[3]):
-            _run(acc, env, struct.pack("<H", u), 1, shard[1] + ":arbitrary_1unit", hist=shard[1])
+            _run(acc, env, struct.pack("<H", u), 1, shard[1] + ":arbitrary_1unit", hist=shard[1], before=before)
         if shard[2] == 0:
             acc.sample({"history": shard[1], "history_observed": seen, "then": "every 1-unit buffer in DEX mode"})
     elif kind == "dex":
